@@ -38,3 +38,7 @@ Theorem vip_advertised_native s : CReach s ->
     sv_native v = true -> sv_kind v ≠ KProxy ->
     exists m, vips s !! sv_name v = Some (ip, m).
 Proof. intros H. apply (CReach_INV s H). Qed.
+
+From Verif Require Import Catalog.Orphans.
+Theorem CReach_NoOrph s : CReach s -> NoOrph s.
+Proof. induction 1 as [|idx c s _ IH]; [apply NoOrph_st0|apply apply_NoOrph; exact IH]. Qed.
